@@ -195,6 +195,12 @@ def export_check(program, built, solver, prims, leaves, job):
                     tv = cells["GANTT Task view"]
                     for i, (tn, ts) in enumerate(sol.tasks.items()):
                         if not ts.scheduled or ts.start < 0:
+                            # a task that is not scheduled keeps its row (its name) and has no bar
+                            if tv.get((i + 1, 0)) != tn:
+                                bad("excel:task-row-name", leaf, row=i + 1, got=tv.get((i + 1, 0)), want=tn, scheduled=False)
+                            extra_cells = {c_: v for (r_, c_), v in tv.items() if r_ == i + 1 and c_ >= 1}
+                            if extra_cells:
+                                bad("excel:bar-for-unscheduled-task", leaf, task=tn, got=extra_cells)
                             continue
                         if tv.get((i + 1, 0)) != tn:
                             bad("excel:task-row-name", leaf, row=i + 1, got=tv.get((i + 1, 0)), want=tn)
